@@ -73,7 +73,18 @@ func (s *endpointPickStrategy) Pop() (*EndpointInfo, error) {
 	}
 	readyEndpoints := []*EndpointInfo{}
 	unreadyReason := []string{}
-	for _, ep := range s.upstreams {
+	for i, ep := range s.upstreams {
+		// an endpoint that is listed twice in the policy's upstream subset is one endpoint, not two shares
+		listed := false
+		for _, prev := range s.upstreams[:i] {
+			if prev == ep {
+				listed = true
+				break
+			}
+		}
+		if listed {
+			continue
+		}
 		info, ok := s.cluster.Endpoints.Load(ep)
 		if ok {
 			if info.IsReady() {
